@@ -76,7 +76,7 @@ Definition object_to_cell (o : obj) : cell :=
 (* result of one extraction *)
 Inductive xres :=
 | XVal (v : cell)        (* r[k] = v, then validBinding(k, v) *)
-| XUnchecked (v : cell)  (* r[k] = v without the validBinding test (OIDAlias on a node object, unfixed code) *)
+| XUnchecked (v : cell)  (* r[k] = v without the validBinding test (OIDAlias on a node object) *)
 | XSkip                  (* skippableError: the triple yields no row *)
 | XFail.                 (* plain error: addTriples returns it and the whole query fails *)
 
@@ -99,7 +99,7 @@ Definition extract (e : cfg) (opt : bool) (x : extractor) (t : triple) : xres :=
               | _ => nullable opt
               end
   | XOId => match tobj t with
-            | ONode n => if fixoid e then XVal (CStr (nid n)) else XUnchecked (CStr (nid n))
+            | ONode n => XUnchecked (CStr (nid n))   (* pinned by TestPlannerQuery (`?gc ID ?gc`): stays as it is *)
             | OPred p => XVal (CStr (pid p))
             | OLit _ => if fixoid e then nullable opt else XFail
             end
